@@ -49,6 +49,7 @@ type DocSpec struct {
 
 	TreeDepth         int  `json:"tree_depth"`   // levels of /Pages nodes above the leaves (1..4)
 	InheritAt         int  `json:"inherit_at"`   // 0 keys on the page itself, k = on the k-th ancestor
+	InheritVary       bool `json:"inherit_vary,omitempty"` // sibling subtrees carry different boxes, rotations and font resources; some inherit from the root
 	ResIndirect       bool `json:"res_indirect"` // /Resources, /Font dict indirect
 	FontPartsIndirect bool `json:"font_parts_indirect"`
 	Rotate            int  `json:"rotate"`   // 0, 90, 180, 270
@@ -114,6 +115,7 @@ func eolOf(i int) string {
 }
 
 type pageState struct {
+	group   int // which set of inheritable attributes applies to the page
 	num     int // object number of the page dict
 	content []int
 	model   PageModel
@@ -140,6 +142,9 @@ type docState struct {
 	resDict     Dict
 	xobjNum     int
 	formOwner   *pageState // the one page whose last line is drawn by the form XObject
+	groupOfNode map[int]int // ancestor node -> attribute group (-1: none of its own, inherits from the root)
+	groups      int
+	curGroup    int
 	box         [4]float64
 	lenObjs     map[int]int // stream object -> its length object
 	kidsObjs    map[int]int
@@ -425,6 +430,67 @@ func (d *docState) ancestor(p *pageState, k int) int {
 	return n
 }
 
+// groupFor decides which set of inheritable attributes a page sees.
+func (d *docState) groupFor(p *pageState) int {
+	sp := d.spec
+	if !sp.InheritVary || sp.InheritAt == 0 {
+		return 0
+	}
+	a := d.ancestor(p, sp.InheritAt)
+	if a == d.rootNode {
+		return 0
+	}
+	if d.groupOfNode == nil {
+		d.groupOfNode = map[int]int{}
+	}
+	g, ok := d.groupOfNode[a]
+	if !ok {
+		if d.r.Split("group" + strconv.Itoa(len(d.groupOfNode))).Bool() {
+			d.groups++
+			g = d.groups
+		} else {
+			g = -1
+		}
+		d.groupOfNode[a] = g
+	}
+	if g < 0 {
+		return 0
+	}
+	return g
+}
+
+func (d *docState) groupBox(g int) [4]float64 {
+	b := d.box
+	b[2] += float64(7 * g)
+	b[3] += float64(11 * g)
+	return b
+}
+
+func (d *docState) groupRotate(g int) int { return (d.spec.Rotate + 90*g) % 360 }
+
+// resName: the resource name under which font i is known in the current group
+// (sibling subtrees map the same names to different fonts).
+func (d *docState) resName(i int) string {
+	n := len(d.fonts)
+	return "F" + strconv.Itoa((i+d.curGroup)%n+1)
+}
+
+// groupResources builds the resource dictionary of a group > 0 (always direct).
+func (d *docState) groupResources(g int) Dict {
+	save := d.curGroup
+	d.curGroup = g
+	fd := Dict{}
+	for i := range d.fonts {
+		fd = append(fd, KV{d.resName(i), d.ref(d.fontNum[i])})
+	}
+	d.curGroup = save
+	res := Dict{{"Font", fd}, {"ProcSet", Arr{Name("PDF"), Name("Text")}}}
+	if x := d.resDict.Get("XObject"); x != nil {
+		res = append(res, KV{"XObject", x})
+	}
+	return res
+}
+
 // emitTree (re)writes all page tree nodes into set.
 func (d *docState) emitTree(set map[int]Obj) {
 	sp := d.spec
@@ -432,15 +498,28 @@ func (d *docState) emitTree(set map[int]Obj) {
 	if sp.InheritAt > 0 {
 		for _, p := range d.pages {
 			a := d.ancestor(p, sp.InheritAt)
+			var res Obj = d.resDict
+			if d.resNum != 0 {
+				res = d.ref(d.resNum)
+			}
+			base := Dict{{"MediaBox", boxArr(d.groupBox(0))}, {"Resources", res}}
+			if d.groupRotate(0) != 0 {
+				base = append(base, KV{"Rotate", d.groupRotate(0)})
+			}
+			if sp.InheritVary {
+				// the root always carries the default attributes; an ancestor with a group of
+				// its own overrides them, one without inherits them
+				inherit[d.rootNode] = base
+				if g := d.groupOfNode[a]; g > 0 && a != d.rootNode {
+					own := Dict{{"MediaBox", boxArr(d.groupBox(g))}, {"Resources", d.groupResources(g)}}
+					// Rotate 0 must be spelled out where the root says something else
+					own = append(own, KV{"Rotate", d.groupRotate(g)})
+					inherit[a] = own
+				}
+				continue
+			}
 			if _, ok := inherit[a]; !ok {
-				var res Obj = d.resDict
-				if d.resNum != 0 {
-					res = d.ref(d.resNum)
-				}
-				inherit[a] = Dict{{"MediaBox", boxArr(p.model.MediaBox)}, {"Resources", res}}
-				if sp.Rotate != 0 {
-					inherit[a] = append(inherit[a], KV{"Rotate", sp.Rotate})
-				}
+				inherit[a] = base
 			}
 		}
 	}
@@ -588,7 +667,7 @@ func (d *docState) contentFor(lines []Line, r *sim.Rand) []byte {
 			b.WriteString("BT" + nl)
 			opened = true
 		}
-		fmt.Fprintf(&b, "/%s %s Tf%s", f.ResName, num(l.Size), nl)
+		fmt.Fprintf(&b, "/%s %s Tf%s", d.resName(l.Font), num(l.Size), nl)
 		switch {
 		case mode == 2:
 			fmt.Fprintf(&b, "1 0 0 1 %s %s Tm%s", num(l.X), num(l.Y), nl)
@@ -633,12 +712,12 @@ func (d *docState) contentFor(lines []Line, r *sim.Rand) []byte {
 }
 
 func (d *docState) fillPage(p *pageState, idx int, set map[int]Obj) {
-	sp := d.spec
 	// keyed by the page's position, not by its object number: renumbering is storage
 	r := d.r.Split("page" + strconv.Itoa(idx) + "r" + strconv.Itoa(d.w.revs))
 	// one page size per document (so that it can be inherited from any ancestor, and so
 	// that the same logical document has the same geometry in every storage layout)
-	p.model = PageModel{MediaBox: d.box, Rotate: sp.Rotate}
+	p.group = d.groupFor(p)
+	p.model = PageModel{MediaBox: d.groupBox(p.group), Rotate: d.groupRotate(p.group)}
 	for _, f := range d.fonts {
 		p.model.FontRes = append(p.model.FontRes, f.ResName)
 	}
@@ -650,6 +729,8 @@ func (d *docState) fillPage(p *pageState, idx int, set map[int]Obj) {
 // writePageObjects emits the page dictionary and its content streams.
 func (d *docState) writePageObjects(p *pageState, lines []Line, set map[int]Obj, r *sim.Rand) {
 	sp := d.spec
+	d.curGroup = p.group
+	defer func() { d.curGroup = 0 }()
 	mainLines := lines
 	var formLines []Line
 	if d.formOwner == nil && d.w.revs == 0 && sp.FormXObj && d.xobjNum != 0 && len(lines) >= 2 {
@@ -667,7 +748,11 @@ func (d *docState) writePageObjects(p *pageState, lines []Line, set map[int]Obj,
 		fs := &Stream{Dict: Dict{{"Type", Name("XObject")}, {"Subtype", Name("Form")}, {"BBox", Arr{0, 0, 612, 792}}}, Plain: fp}
 		if r.Bool() {
 			// a form may carry its own resources; without them it uses the page's
-			fs.Dict = append(fs.Dict, KV{"Resources", Dict{{"Font", d.resDict.Get("Font")}}})
+			if p.group > 0 {
+				fs.Dict = append(fs.Dict, KV{"Resources", Dict{{"Font", d.groupResources(p.group).Get("Font")}}})
+			} else {
+				fs.Dict = append(fs.Dict, KV{"Resources", Dict{{"Font", d.resDict.Get("Font")}}})
+			}
 		}
 		fs.Filters = d.chain(len(fp), r)
 		set[d.xobjNum] = fs
